@@ -733,7 +733,14 @@ func checkC12(r *Result) {
 		})
 		okAll, n, det := true, 0, ""
 		phi := func(v map[string]bool) bool { return !v["failedPending"] && (!v["due"] || v["tallied"]) }
+		var visitLoop *ssa.BasicBlock
+		if due != nil {
+			visitLoop = innermostLoopHeader(hook, due)
+		}
 		for _, h := range loopHeaders(hook) {
+			if h != visitLoop {
+				continue
+			}
 			for _, p := range h.Preds {
 				if !h.Dominates(p) {
 					continue
